@@ -13,8 +13,10 @@ Proof.
   assert (H2 : (length (match r with [] => [] | _ :: r' => skip_wrapper_opts wa r' end) <= S (length r))%nat).
   { destruct r as [|x r']; cbn [length]; [lia|]. pose proof (Hr r' ltac:(cbn [length] in Hn; lia)). lia. }
   destruct (mem_str t wa); [exact H2|].
+  destruct (prefixb [45; 45] t && negb (mem_ch 61 t)).
+  { destruct (existsb (fun f => prefixb [45; 45] f && prefixb t f) wa); [exact H2|]. pose proof (Hr r ltac:(lia)). lia. }
   destruct (prefixb [45] t && Nat.ltb 1 (length t)); [|cbn [length]; lia].
-  destruct (negb (prefixb [45; 45] t) && mem_str (last_flag t) wa); [exact H2|].
+  destruct (negb (prefixb [45; 45] t) && Nat.eqb (first_arg_letter wa (tl t) 1) (length t - 1)); [exact H2|].
   pose proof (Hr r ltac:(lia)). lia.
 Qed.
 
@@ -154,13 +156,36 @@ Section LadderP.
   Qed.
 
   (* C04: the plain forms of the pure wrappers are transparent *)
-  (* an option word of a wrapper that takes no argument: starts with "-", longer than "-", not "--",
-     not in the wrapper's with-argument table, and not a short cluster ending in such an option *)
+  (* an option word of a wrapper that takes no argument: starts with "-", longer than "-", not "--", not in the
+     wrapper's with-argument table, not an abbreviation of one of its long options, and not a short cluster whose
+     LAST letter is its first option with an argument *)
+  Definition takes_next (wa : list str) (t : str) : bool :=
+    if prefixb [45; 45] t && negb (mem_ch 61 t) then existsb (fun f => prefixb [45; 45] f && prefixb t f) wa
+    else negb (prefixb [45; 45] t) && Nat.eqb (first_arg_letter wa (tl t) 1) (length t - 1).
   Definition plain_opt (wa : list str) (t : str) : bool :=
-    prefixb [45] t && Nat.ltb 1 (length t) && negb (str_eqb t [45; 45]) && negb (mem_str t wa) &&
-    negb (negb (prefixb [45; 45] t) && mem_str (last_flag t) wa).
+    prefixb [45] t && Nat.ltb 1 (length t) && negb (str_eqb t [45; 45]) && negb (mem_str t wa) && negb (takes_next wa t).
   (* the first word of the wrapped command is not option-shaped *)
   Definition operand_word (t : str) : bool := negb (prefixb [45] t && Nat.ltb 1 (length t)) && negb (str_eqb t [45; 45]).
+
+  Lemma prefix2_prefix1 t : prefixb [45; 45] t = true -> prefixb [45] t = true.
+  Proof.
+    destruct t as [|a [|b r]]; cbn [prefixb]; try discriminate.
+    - rewrite andb_false_r. discriminate.
+    - intro H. apply andb_true_iff in H as [H _]. rewrite H. reflexivity.
+  Qed.
+
+  Lemma skip_plain_step wa o r : plain_opt wa o = true -> skip_wrapper_opts wa (o :: r) = skip_wrapper_opts wa r.
+  Proof.
+    intro H. unfold plain_opt in H. repeat (apply andb_true_iff in H as [H ?]).
+    repeat match goal with X : negb _ = true |- _ => apply negb_true_iff in X end.
+    cbn [skip_wrapper_opts].
+    match goal with X : str_eqb o [45;45] = false |- _ => rewrite X end.
+    match goal with X : mem_str o wa = false |- _ => rewrite X end.
+    match goal with X : takes_next wa o = false |- _ => unfold takes_next in X; rename X into Ht end.
+    destruct (prefixb [45; 45] o && negb (mem_ch 61 o)); [rewrite Ht; reflexivity|].
+    replace (prefixb [45] o && Nat.ltb 1 (length o)) with true by (symmetry; apply andb_true_iff; split; assumption).
+    rewrite Ht. reflexivity.
+  Qed.
 
   Lemma skip_opts_plain wa opts inner : forallb (plain_opt wa) opts = true ->
     match inner with t :: _ => operand_word t = true /\ mem_str t wa = false | [] => True end ->
@@ -169,15 +194,13 @@ Section LadderP.
     intros Ho Hi. induction opts as [|o opts IH]; cbn [app].
     - destruct inner as [|t r]; [reflexivity|]. destruct Hi as [Hop Hwa]. cbn [skip_wrapper_opts].
       unfold operand_word in Hop. apply andb_true_iff in Hop as [H1 H2]. apply negb_true_iff in H1, H2.
-      rewrite H2, Hwa, H1. reflexivity.
-    - cbn [forallb] in Ho. apply andb_true_iff in Ho as [Ho1 Ho2]. cbn [skip_wrapper_opts].
-      unfold plain_opt in Ho1. repeat (apply andb_true_iff in Ho1 as [Ho1 ?]).
-      repeat match goal with H : negb _ = true |- _ => apply negb_true_iff in H end.
-      match goal with H : str_eqb o [45;45] = false |- _ => rewrite H end.
-      match goal with H : mem_str o wa = false |- _ => rewrite H end.
-      match goal with H : (negb (prefixb [45;45] o) && mem_str (last_flag o) wa) = false |- _ => rewrite H end.
-      replace (prefixb [45] o && Nat.ltb 1 (length o)) with true by (symmetry; apply andb_true_iff; split; assumption).
-      exact (IH Ho2).
+      rewrite H2, Hwa.
+      destruct (prefixb [45; 45] t) eqn:E2.
+      + exfalso. pose proof (prefix2_prefix1 t E2) as E1. rewrite E1 in H1. cbn [andb] in H1.
+        destruct t as [|a [|b r']]; cbn [prefixb] in E2; try discriminate;
+          try (rewrite andb_false_r in E2; discriminate); cbn [length] in H1; discriminate.
+      + cbn [andb]. rewrite H1. reflexivity.
+    - cbn [forallb] in Ho. apply andb_true_iff in Ho as [Ho1 Ho2]. rewrite (skip_plain_step wa o _ Ho1). exact (IH Ho2).
   Qed.
 
   Lemma skip_opts_dashdash wa opts inner : forallb (plain_opt wa) opts = true ->
@@ -185,14 +208,7 @@ Section LadderP.
   Proof.
     intro Ho. induction opts as [|o opts IH]; cbn [app].
     - reflexivity.
-    - cbn [forallb] in Ho. apply andb_true_iff in Ho as [Ho1 Ho2]. cbn [skip_wrapper_opts].
-      unfold plain_opt in Ho1. repeat (apply andb_true_iff in Ho1 as [Ho1 ?]).
-      repeat match goal with H : negb _ = true |- _ => apply negb_true_iff in H end.
-      match goal with H : str_eqb o [45;45] = false |- _ => rewrite H end.
-      match goal with H : mem_str o wa = false |- _ => rewrite H end.
-      match goal with H : (negb (prefixb [45;45] o) && mem_str (last_flag o) wa) = false |- _ => rewrite H end.
-      replace (prefixb [45] o && Nat.ltb 1 (length o)) with true by (symmetry; apply andb_true_iff; split; assumption).
-      exact (IH Ho2).
+    - cbn [forallb] in Ho. apply andb_true_iff in Ho as [Ho1 Ho2]. rewrite (skip_plain_step wa o _ Ho1). exact (IH Ho2).
   Qed.
 
   Lemma wrapper_transparent c w rest inner :
